@@ -42,17 +42,27 @@ func genScale(r *Rng, prop string) *Plan {
 		cfg.Order = []int{3, 4, 8, 64}[r.Intn(4)]
 	}
 	n := r.Range(33_000, 70_000)
-	if prop == "C02" {
+	treeBacked := kvDisciplineIsTree(cfg.Kind)
+	deep := prop == "C02" || treeBacked && prop != "C13" && r.P(1, 3)
+	if deep {
 		n = []int{200_000, 262_144}[r.Intn(2)] // descending: the red-black tree's left spine passes 32 levels
 	}
 	if n%7919 == 0 {
 		n++
 	}
 	order := r.Intn(3)
-	if prop == "C02" {
+	if deep {
 		order = r.Intn(2)
 	}
 	return &Plan{World: "scale", Cfg: cfg, Ops: []Op{{ID: 0, N: "Scale", A: []int{n, order}}}}
+}
+
+func kvDisciplineIsTree(kind string) bool {
+	switch kind {
+	case "treeset", "treemap", "redblacktree", "avltree", "btree", "treebidimap":
+		return true
+	}
+	return false
 }
 
 var scaleOrders = []string{"ascending", "descending", "strided"}
